@@ -18,30 +18,30 @@ Open Scope Z_scope.
 Open Scope bool_scope.
 
 (* checked call of a translated function: its value if its side conditions hold, a panic otherwise *)
-Definition chk {A : Type} (ok : bool) (v : A) : option A := if ok then Some v else None.
+Definition mm_chk {A : Type} (ok : bool) (v : A) : option A := if ok then Some v else None.
 
 Local Notation "'guard' c ';;' k" := (if c then k else None) (at level 200, c at level 100, right associativity, only parsing).
 
 (* checked variants of the translated straight-line functions *)
 Definition mm_left_child (node_index height : Z) : option Z :=
-  chk (left_child_ok node_index height) (left_child node_index height).
+  mm_chk (left_child_ok node_index height) (left_child node_index height).
 Definition mm_right_child (node_index : Z) : option Z :=
-  chk (right_child_ok node_index) (right_child node_index).
+  mm_chk (right_child_ok node_index) (right_child node_index).
 Definition mm_leaf_index_to_mt_index_and_peak_index (leaf_index leaf_count : Z) : option (Z * Z) :=
-  chk (leaf_index_to_mt_index_and_peak_index_ok leaf_index leaf_count)
+  mm_chk (leaf_index_to_mt_index_and_peak_index_ok leaf_index leaf_count)
       (leaf_index_to_mt_index_and_peak_index leaf_index leaf_count).
 Definition mm_right_lineage_length_from_leaf_index (leaf_index : Z) : option Z :=
-  chk (right_lineage_length_from_leaf_index_ok leaf_index) (right_lineage_length_from_leaf_index leaf_index).
+  mm_chk (right_lineage_length_from_leaf_index_ok leaf_index) (right_lineage_length_from_leaf_index leaf_index).
 Definition mm_leftmost_ancestor (node_index : Z) : option (Z * Z) :=
-  chk (leftmost_ancestor_ok node_index) (leftmost_ancestor node_index).
+  mm_chk (leftmost_ancestor_ok node_index) (leftmost_ancestor node_index).
 Definition mm_leaf_index_to_node_index (leaf_index : Z) : option Z :=
-  chk (leaf_index_to_node_index_ok leaf_index) (leaf_index_to_node_index leaf_index).
+  mm_chk (leaf_index_to_node_index_ok leaf_index) (leaf_index_to_node_index leaf_index).
 Definition mm_left_sibling (node_index height : Z) : option Z :=
-  chk (left_sibling_ok node_index height) (left_sibling node_index height).
+  mm_chk (left_sibling_ok node_index height) (left_sibling node_index height).
 Definition mm_right_sibling (node_index height : Z) : option Z :=
-  chk (right_sibling_ok node_index height) (right_sibling node_index height).
+  mm_chk (right_sibling_ok node_index height) (right_sibling node_index height).
 Definition mm_num_leafs_to_num_nodes (num_leafs : Z) : option Z :=
-  chk (num_leafs_to_num_nodes_ok num_leafs) (num_leafs_to_num_nodes num_leafs).
+  mm_chk (num_leafs_to_num_nodes_ok num_leafs) (num_leafs_to_num_nodes num_leafs).
 
 (* ------------------------------------------------------------------------------------------------
    pub fn right_lineage_length_and_own_height(node_index: u64) -> (u32, u32)
@@ -111,11 +111,11 @@ Definition mm_parent (node_index : Z) : option Z :=
   match mm_right_lineage_length_and_own_height node_index with
   | None => None
   | Some (rac, height) =>
-      if negb (rac =? 0) then chk (add_ok 64 node_index 1) (wadd 64 node_index 1)
+      if negb (rac =? 0) then mm_chk (add_ok 64 node_index 1) (wadd 64 node_index 1)
       else
         guard add_ok 32 height 1 ;;
         guard shift_ok 64 (wadd 32 height 1) ;;
-        chk (add_ok 64 node_index (wshl 64 1 (wadd 32 height 1)))
+        mm_chk (add_ok 64 node_index (wshl 64 1 (wadd 32 height 1)))
             (wadd 64 node_index (wshl 64 1 (wadd 32 height 1)))
   end.
 
